@@ -7,13 +7,13 @@ from rules import misc as M
 
 
 def run(ctx):
-    S.pan2_parse_layer(ctx)
-    S.pan3_task_construction(ctx)
-    S.erv2_request_shell(ctx)
-    LM.flw1_limit_arithmetic(ctx)
-    SH.flw8_shape(ctx)
-    L.lck10_no_reentrant_acquisition(ctx, scope_prefixes=['engine::execution::query_task::', 'scheduler::shared_sender::', 'locustdb::'])
-    M.ord13_top_n_limit_zero(ctx)
+    ctx.run(S.pan2_parse_layer)
+    ctx.run(S.pan3_task_construction)
+    ctx.run(S.erv2_request_shell)
+    ctx.run(LM.flw1_limit_arithmetic)
+    ctx.run(SH.flw8_shape)
+    ctx.run(L.lck10_no_reentrant_acquisition, scope_prefixes=['engine::execution::query_task::', 'scheduler::shared_sender::', 'locustdb::'])
+    ctx.run(M.ord13_top_n_limit_zero)
     return ctx.finish(
         'Static analysis of compiler MIR + syntax tree: the text -> AST -> Query -> task shell has '
         'no explicit panic source (unwrap/expect/panic!/assert/index) except tabled, reasoned '
